@@ -40,6 +40,9 @@ struct Cfg {
     sink_profiles: Vec<u8>,
     /// number of peers whose registration is queued before the router is polled for the first time
     prefill: usize,
+    /// (step, count): `count` peers register back to back between two polls, some of the publishers among them
+    /// already have an item ready, and the router is then left alone until it is quiescent
+    storm: Option<(usize, usize)>,
 }
 
 fn payload(peer: usize, seq: u32, rng: &mut Rng) -> Bytes {
@@ -102,6 +105,13 @@ fn gen_cfg(rng: &mut Rng, family: &str) -> Cfg {
         faults: family == "c08" || (family == "c16" && rng.pct(30)),
         sink_profiles,
         prefill: if family == "burst" && rng.pct(60) { rng.usize(n_pubs + n_subs + 1) } else { 0 },
+        storm: if family == "burst" && rng.pct(70) {
+            let total = n_pubs + n_subs;
+            let count = if rng.pct(50) { rng.range(1, total as u64) as usize } else { total - rng.usize(total.min(6)) };
+            Some((if rng.pct(40) { 0 } else { rng.usize(steps) }, count))
+        } else {
+            None
+        },
     }
 }
 
@@ -390,7 +400,7 @@ impl Sim {
                 if !st.queue.is_empty() {
                     let never = st.first_touch.is_none();
                     self.findings.push(Finding {
-                        class: "sleep",
+                        class: if never { "abandoned" } else { "sleep" },
                         sig: format!(
                             "pubsub/sleep/unread-input{}",
                             if never { "/registration-unnoticed" } else { "" }
@@ -583,7 +593,7 @@ impl Sim {
         if !yielded {
             let never = st.first_touch.is_none();
             self.findings.push(Finding {
-                class: "sleep",
+                class: if never { "abandoned" } else { "sleep" },
                 sig: format!("pubsub/sleep/probe-unread{}", if never { "/registration-unnoticed" } else { "" }),
                 detail: format!(
                     "after quiescence {} published a probe item; the router never read it{}",
@@ -700,6 +710,28 @@ pub fn run(seed: u64, family: &str, keep_dump: bool) -> RunResult {
         if cfg.close_at == Some(step) && !sim.closed {
             sim.close();
             continue;
+        }
+        if let Some((at, count)) = cfg.storm {
+            if at == step && !sim.closed {
+                let mut fresh: Vec<usize> = {
+                    let w = lock(&sh);
+                    sim.pubs.iter().chain(sim.subs.iter()).copied().filter(|p| w.peers[*p].reg_sent.is_none()).collect()
+                };
+                lock(&sh).act(format!("registration storm: up to {} peers register back to back", count));
+                for _ in 0..count.min(fresh.len()) {
+                    let k = sim.rng.usize(fresh.len());
+                    let p = fresh.swap_remove(k);
+                    sim.register(p);
+                    if sim.pubs.contains(&p) && sim.rng.pct(40) {
+                        sim.produce(p, "msg");
+                    }
+                }
+                if sim.settle("after registration storm") && sim.alive {
+                    sim.quiescent_checks("quiescence after a registration storm", false);
+                }
+                sim.end_settle();
+                continue;
+            }
         }
         let mut acts: Vec<(A, u32)> = vec![];
         if sim.flag.is_woken() {
@@ -891,7 +923,7 @@ pub fn run(seed: u64, family: &str, keep_dump: bool) -> RunResult {
         "engine": "routersim/pubsub", "family": family, "seed": seed,
         "n_pubs": cfg.n_pubs, "n_subs": cfg.n_subs, "items": cfg.items, "steps": cfg.steps,
         "spurious_polls": cfg.spurious, "close_at": cfg.close_at, "close_at_end": cfg.close_at_end,
-        "faults": cfg.faults, "sink_profiles": cfg.sink_profiles, "registrations_queued_before_first_poll": cfg.prefill,
+        "faults": cfg.faults, "sink_profiles": cfg.sink_profiles, "registrations_queued_before_first_poll": cfg.prefill, "registration_storm_step_count": cfg.storm,
     });
     let dump = if keep_dump || !sim.findings.is_empty() {
         Some(dump_world(&w, 400))
